@@ -8,13 +8,18 @@ def main():
     ctx = Ctx("SETUP", "quick", 0)
     rc = 0
     # 1. Coq development (full .vo build)
-    with Lock("coq"):
-        ensure_coq_makefile()
-        p = sh(["timeout", "5400", "make", "-j16", "-k"], cwd=COQ)
-        ctx.log("coq make all rc=%d" % p.returncode)
+    for theme in sorted(os.listdir(COQ)):
+        td = os.path.join(COQ, theme)
+        if not os.path.isdir(td):
+            continue
+        vs = [theme + "/" + f[:-2] + ".vo" for f in sorted(os.listdir(td)) if f.endswith(".v") and not f.startswith("Extract")]
+        if not vs:
+            continue
+        p = coq_make(vs, timeout=3000)
+        ctx.log("coq theme %s rc=%d" % (theme, p.returncode))
         if p.returncode != 0:
-            print((p.stderr + p.stdout)[-3000:])
-            rc = 1
+            print((p.stderr + p.stdout)[-1500:])
+            rc += 1
     # 2. harness crates + erg binary
     for pkg in sorted(os.listdir(os.path.join(VERIF, "harness"))):
         if os.path.exists(os.path.join(VERIF, "harness", pkg, "Cargo.toml")):
